@@ -112,7 +112,13 @@ func (n *decoratorNode) Call(s containerStore) (err error) {
 			n.state = decoratorReady
 		}
 	}()
-	n.s.rootScope().decoratorsStarted++
+	// Count the decorators that are running, not the ones that were started:
+	// a decorator that failed and is started again on every lap of a
+	// dependency cycle must not make the cycle look like a legitimate
+	// re-entry. See constructorNode.Call.
+	root := n.s.rootScope()
+	root.decoratorsStarted++
+	defer func() { root.decoratorsStarted-- }()
 
 	if err := shallowCheckDependencies(s, n.params); err != nil {
 		return errMissingDependencies{
